@@ -198,10 +198,11 @@ type FParam struct {
 }
 
 type TextVal struct {
-	Lit    *StrLit   `json:"lit"`
-	Format bool      `json:"format,omitempty"`
-	Params []*FParam `json:"params,omitempty"`
-	Span   int       `json:"-"`
+	Lit     *StrLit   `json:"lit"`
+	Format  bool      `json:"format,omitempty"`
+	Params  []*FParam `json:"params,omitempty"`
+	Span    int       `json:"-"`
+	LitSpan int       `json:"-"` // span of the string literal alone (type prefix + parts)
 }
 
 // ---- poryswitch ----
